@@ -257,6 +257,17 @@ func init() {
 	})
 }
 
+// lengthSweep: lists of 0..maxlen readable files under each of the given worker counts, one fixed
+// (run-until-block) schedule; the native replay runs under taskset with that many CPUs.
+func lengthSweep(workers []int, maxlen int) []jobSpec {
+	var out []jobSpec
+	for _, k := range workers {
+		p := map[string]string{"taskset": strconv.Itoa(k), "maxlen": strconv.Itoa(maxlen)}
+		out = append(out, jobSpec{Name: fmt.Sprintf("HashClean[lengths 0..%d, %d workers]", maxlen, k), Func: "HashClean", Params: p, Opts: interp.Options{Budget: 20_000_000}})
+	}
+	return out
+}
+
 func hashJob(fn string, n, maxcpus, preempt int) jobSpec { return hashJobB(fn, n, maxcpus, preempt, 1) }
 
 // hashJobB: partB = 0 restricts HashDet to part A (order/CPU/schedule independence) with the
@@ -281,18 +292,18 @@ func init() {
 			"no panic in any goroutine, no deadlock, termination, an error and no digest whenever an entry cannot be opened or read, and no goroutine left behind after Hash returns.",
 		Bounds: func(tier string) string {
 			if tier == "thorough" {
-				return "lists over a pool of 7 entries (duplicates allowed): length 0..1 x 1..3 CPUs x schedules with at most 2 preemptions; length 2 x 1..3 CPUs x all blocking-point choices, x 1..2 CPUs x at most 1 preemption; length 3 x one worker x all blocking-point choices (first written as 0..3 x 1..3 x 1-2 preemptions, which did not finish: (2,2,2) was killed after 20 minutes)"
+				return "lists over a pool of 7 entries (duplicates allowed): length 0..1 x 1..3 CPUs x schedules with at most 2 preemptions; length 2 x 1..3 CPUs x all blocking-point choices, x 1..2 CPUs x at most 1 preemption; length 3 x one worker x all blocking-point choices; length sweep: 0..24 readable files x 2..8 workers under one fixed schedule (first written as 0..3 x 1..3 x 1-2 preemptions, which did not finish: (2,2,2) was killed after 20 minutes)"
 			}
-			return "lists of length 0..2 (duplicates allowed) over a pool of 7 entries x 1..2 CPUs x all schedules with at most 1 preemption (length 2: no preemption, all blocking-point choices)"
+			return "lists of length 0..2 (duplicates allowed) over a pool of 7 entries x 1..2 CPUs x all schedules with at most 1 preemption (length 2: no preemption, all blocking-point choices); length sweep: 0..9 readable files x 3..5 workers under one fixed schedule"
 		},
 		Outside:      []string{"lists longer than 3, lists of length 3 with more than one worker, more than 3 workers, schedules with more preemptions", "data races (see assumptions); dangling symbolic links; real parallelism"},
 		Assumptions:  hashAssumptions,
 		EndSignature: map[string]string{"crash": "C18/crash", "budget": "C18/non-termination", "deadlock": "C18/deadlock"},
 		Jobs: func(tier string, seed int64) []jobSpec {
 			if tier == "thorough" {
-				return []jobSpec{hashJob("HashClean", 0, 3, 2), hashJob("HashClean", 1, 3, 2), hashJob("HashClean", 2, 3, 0), hashJob("HashClean", 2, 1, 1), hashJob("HashClean", 3, 1, 0), hashJob("HashClean", 2, 2, 1)}
+				return append([]jobSpec{hashJob("HashClean", 0, 3, 2), hashJob("HashClean", 1, 3, 2), hashJob("HashClean", 2, 3, 0), hashJob("HashClean", 2, 1, 1), hashJob("HashClean", 3, 1, 0), hashJob("HashClean", 2, 2, 1)}, lengthSweep([]int{2, 3, 4, 5, 6, 7, 8}, 24)...)
 			}
-			return []jobSpec{hashJob("HashClean", 0, 2, 1), hashJob("HashClean", 1, 2, 1), hashJob("HashClean", 2, 2, 0)}
+			return append([]jobSpec{hashJob("HashClean", 0, 2, 1), hashJob("HashClean", 1, 2, 1), hashJob("HashClean", 2, 2, 0)}, lengthSweep([]int{3, 4, 5}, 9)...)
 		},
 	})
 	register(&checkDef{
@@ -325,9 +336,9 @@ func init() {
 			"The expansion, as a set, must equal {p in tree (files and directories) : doublestar.Match(pattern, p) and p does not begin with '.'}, and a second expansion of the unchanged tree must give the same list; with two tasks carrying two patterns each pattern's expansion must still be exactly that set. All variables are booleans/choices: complete enumeration inside the bound.",
 		Bounds: func(tier string) string {
 			if tier == "thorough" {
-				return fmt.Sprintf("all subsets of a pool of %d candidate paths (3 of them hidden-or-not) x %d patterns; two tasks with two patterns: all %d ordered pairs of distinct patterns x all subsets of the first 7 candidate paths", 9, nPatterns, nPatterns*(nPatterns-1))
+				return fmt.Sprintf("all subsets of a pool of %d candidate paths (3 of them hidden-or-not) x %d patterns; two tasks with two patterns: all %d ordered pairs of distinct patterns x all subsets of the first 7 candidate paths; every pattern also with the project in a directory named 'p [v2]{x}' (first 4 candidate paths)", 9, nPatterns, nPatterns*(nPatterns-1))
 			}
-			return "all subsets of the first 7 candidate paths (2 of them hidden-or-not) x 8 patterns; two tasks with two patterns: 5 overlapping pairs x all subsets of the first 5 candidate paths"
+			return "all subsets of the first 7 candidate paths (2 of them hidden-or-not) x 8 patterns; two tasks with two patterns: 5 overlapping pairs x all subsets of the first 5 candidate paths; every pattern also with the project in a directory named 'p [v2]{x}' (first 4 candidate paths)"
 		},
 		Outside:      []string{"other trees and patterns; symbolic links; patterns without '*' are not globs for spok", "doublestar.Match is the reference for 'the relative path matches the pattern' (the library's contract, not spok's)"},
 		Assumptions:  runAssumptions,
@@ -344,6 +355,10 @@ func init() {
 			var out []jobSpec
 			for _, k := range pats {
 				out = append(out, jobSpec{Name: fmt.Sprintf("Glob[pattern=%d pool=%d]", k, pool), Func: "Glob", Params: map[string]string{"pattern": strconv.Itoa(k), "pool": strconv.Itoa(pool)}, Opts: interp.Options{Budget: 10_000_000}})
+			}
+			// the project in a directory whose own name contains glob metacharacters
+			for _, k := range pats {
+				out = append(out, jobSpec{Name: fmt.Sprintf("Glob[pattern=%d pool=4 oddroot]", k), Func: "Glob", Params: map[string]string{"pattern": strconv.Itoa(k), "pool": "4", "oddroot": "1"}, Opts: interp.Options{Budget: 10_000_000}})
 			}
 			// two tasks with two patterns: what a pattern denotes does not depend on its neighbours
 			pairs, ppool := [][2]int{{0, 1}, {1, 0}, {2, 5}, {10, 4}, {8, 11}}, 5
